@@ -58,10 +58,11 @@ Print Assumptions C17_untouched_general.
 (* ---- internal/astdiff (Model/AstDiff.v: changeFinder.Walk, walkStruct, walkSlice, commentsFor) ----
    Every span a walk reports starts at NoPos, is empty, or lies within [lo, hi], when the walked
    subtree is bounded by [lo, hi] (positions of its nodes and tokens and of the comments attached
-   to nested nodes) and the region the walk starts with is. *)
+   to nested nodes), the region the walk starts with is, and the end of the enclosing node
+   (nend, which endOf clamps to) is unknown (NoPos) or not below lo. *)
 Theorem C17_spans_stay_within_the_walked_subtree : forall lo hi, nopos <= lo -> lo <= hi ->
   forall script k nend r from to w,
-  bounded_root lo hi from -> Inv lo hi r -> walk script k nend r from to = Some w ->
+  bounded_root lo hi from -> Inv lo hi r -> lowok lo nend -> walk script k nend r from to = Some w ->
   Forall (Good lo hi) (w_log w).
 Proof. intros lo hi H1 H2 script k nend r from to w. exact (walk_bounded_root lo hi H1 H2 script k nend r from to w). Qed.
 Print Assumptions C17_spans_stay_within_the_walked_subtree.
@@ -76,7 +77,7 @@ Theorem C17_identical_declaration_is_clear_of_every_span :
   forall script k nend r t xs t' en ys w j xj c,
   walk script (S k) nend r (VSlice t true xs) (VSlice t' en ys) = Some w ->
   N.eqb t t' = true -> N.eqb t T_object = false -> N.eqb t T_cgroup = false ->
-  list_okb r xs (xedits (script xs ys)) = true ->
+  list_okb nend r xs (xedits (script xs ys)) = true ->
   nth_error xs j = Some xj -> nth_error (xedits (script xs ys)) j = Some Identity ->
   fst c < snd c -> attachedb xs j xj c = true ->
   Forall (not_inside c) (w_log w).
@@ -122,10 +123,10 @@ Example C17_identical_ex :
   let xs := [mk 20 30 [[(10, 19)]] 1%N; mk 40 50 [] 2%N; mk 60 70 [[(71, 80)]] 3%N] in
   let ys := [mk 20 30 [] 1%N; mk 40 50 [] 9%N; mk 60 70 [] 3%N] in
   let r := (5, 90) in
-  match walk the_script 5 nopos r (VSlice 18 true xs) (VSlice 18 true ys) with
+  match walk the_script 5 95 r (VSlice 18 true xs) (VSlice 18 true ys) with
   | Some w => w_log w = [(30, 60)]
               /\ xedits (the_script xs ys) = [Identity; Modified; Identity]
-              /\ list_okb r xs (xedits (the_script xs ys)) = true
+              /\ list_okb 95 r xs (xedits (the_script xs ys)) = true
               /\ attachedb xs 0 (mk 20 30 [[(10, 19)]] 1%N) (10, 19) = true
               /\ attachedb xs 2 (mk 60 70 [[(71, 80)]] 3%N) (71, 80) = true
   | None => False
